@@ -106,6 +106,10 @@ func (s *Server) messageHandler(msg protocol.Message) error {
 		err = s.handleAcquire(msg)
 	case MessageTypeReacquireVolatileTip:
 		err = s.handleReAcquire(msg)
+	case MessageTypeAcquireImmutableTip:
+		err = s.handleAcquire(msg)
+	case MessageTypeReacquireImmutableTip:
+		err = s.handleReAcquire(msg)
 	case MessageTypeDone:
 		s.handleDone()
 	default:
